@@ -26,17 +26,20 @@ def main():
         d = os.path.join(ROOT, "seeded", n)
         meta = json.load(open(os.path.join(d, "meta.json")))
         pid = meta["property"]
-        r = sh("git -C /repo apply --check %s/patch.diff" % d)
+        patch = "patch.diff"
+        if os.path.exists(os.path.join(d, "patch_current.diff")):
+            patch = "patch_current.diff"  # the same change ported to the tree after the fix: commits
+        r = sh("git -C /repo apply --check %s/%s" % (d, patch))
         if r.returncode != 0:
-            r3 = sh("git -C /repo apply -3 %s/patch.diff" % d)
+            r3 = sh("git -C /repo apply -3 %s/%s" % (d, patch))
             if r3.returncode != 0:
-                sh("git -C /repo checkout -- . ; git -C /repo reset -q")
+                sh("git -C /repo reset -q --hard HEAD")
                 results[n] = {"property": pid, "applies": False, "note": r.stdout.strip()[:300]}
                 print(n, "patch does not apply to the current tree")
                 continue
             sh("git -C /repo reset -q")
         else:
-            sh("git -C /repo apply %s/patch.diff" % d)
+            sh("git -C /repo apply %s/%s" % (d, patch))
         try:
             out = {}
             props = [pid] + [p for p in meta.get("also_check", []) if p != pid]
@@ -51,7 +54,7 @@ def main():
             results[n] = {"property": pid, "applies": True, "detected": detected, "checks": out}
             print(n, "DETECTED" if detected else "missed", {k: v.get("exit") for k, v in out.items()})
         finally:
-            sh("git -C /repo checkout -- .")
+            sh("git -C /repo reset -q --hard HEAD")
     json.dump(results, open(res_path, "w"), indent=1)
     return 0
 
